@@ -130,9 +130,8 @@ End Deep.
         after traversing what is there)
      2  top-level annotation wrapper whose first annotation is $ion_symbol_table around a struct: a malformed local
         symbol table (known finding C07: parts of it are skipped by length)
-     3  annotation wrapper whose length field and body are present and that the decoder rejects: not proved yet (the
-        refusal of validateAnnotatedValue is proved, Bin/RejectWrapP.v [validate_rej]; ReadAnnotations' own failures and the
-        recursion into a rejected annotated value are open)
+     3  annotation wrapper whose annotations are fine and whose annotated value is itself rejected by the decoder (this
+        includes the illegal tag 0xEF as the annotated value): not proved yet
      4  (never met by [sj_stream], which takes version markers first) a version marker
      9  (not an exclusion) the decoder does not reject the item at this point.
    [top] = the item is at top level. *)
@@ -173,23 +172,23 @@ Definition lst_first (ys : list symv) : bool :=
 (* an annotation wrapper whose length field and body are present; [inner] decodes the annotated value *)
 Definition wrap_code (top : bool) (ctx : symctx) (body : list N) (inner : list N -> option (option value * list N)) : N :=
   match lim_varuint body with
-  | None => 3                                                   (* malformed annot_length *)
+  | None => 0                                                   (* malformed annot_length (also: an empty wrapper) *)
   | Some (alen, r2) =>
-    if alen =? 0 then 3 else
+    if alen =? 0 then 0 else
     match take_n alen r2 with
-    | None => 3                                                 (* annot_length overruns the wrapper *)
+    | None => 0                                                 (* annot_length overruns the wrapper *)
     | Some (ab, vb) =>
       match vb with
-      | [] => 3                                                 (* no value *)
+      | [] => 0                                                 (* no value *)
       | vt :: _ =>
         match sl_annots ctx (length ab) ab with
-        | None => 3                                             (* malformed / undefined annotation ID *)
+        | None => 0                                             (* malformed / undefined annotation ID *)
         | Some ys =>
-          if vt / 16 =? 14 then 3 else    (* wrapper around a wrapper *)
+          if vt / 16 =? 14 then (if vt mod 16 =? 15 then 3 else 0) else    (* wrapper around a wrapper; 0xEF: see 3 *)
           if top && lst_first ys && (vt / 16 =? 13) then 2 else
           match inner vb with
-          | Some (None, _) => 3                                 (* wrapper around a pad *)
-          | Some (Some _, _ :: _) => 3                          (* the value does not fill the wrapper *)
+          | Some (None, _) => 0                                 (* wrapper around a pad *)
+          | Some (Some _, _ :: _) => 0                          (* the value does not fill the wrapper *)
           | Some (Some _, []) => 9
           | None => 3
           end
